@@ -411,6 +411,59 @@ def compare(ctx, isa, sem, parser, forms_enc, kernels, tally):
             tally.breaks += 1
 
 
+def compare_graph(ctx, isa, forms_enc, kernels, tally):
+    """the composed path: the dependency graph the model builds from the PARSED operands (roles and register changes by
+    Isa.assignSrcDst / Isa.regChanges, graph by DG.create) against the implementation's KernelDG, edge by edge"""
+    from fractions import Fraction
+
+    from harness import corpus, dgcheck
+    from osaca.semantics import INSTR_FLAGS, MachineModel
+
+    archs = corpus.archs_of(isa, ctx.tier == "quick")
+    mms, ims, reqs = {}, [], []
+
+    def num(x):
+        return Fraction(*float(x).as_integer_ratio()) if x is not None else None
+
+    for lines, source in kernels:
+        arch = ctx.rng.choice(archs)
+        fd = ctx.rng.random() < 0.4
+        if arch not in mms:
+            mms[arch] = MachineModel(arch=arch)
+        try:
+            im = dgcheck.Impl(isa, arch, lines, fd, mms[arch])
+        except Exception:  # noqa  (reported by the calling check's own kernel loops)
+            ctx.count("graph_impl_exceptions")
+            continue
+        keys, ky = Keys(), []
+        for ins in im.kernel:
+            ops = list(ins.operands or [])
+            ky.append([ins.line_number, num(ins.latency if ins.latency is not None else 0.0), num(ins.latency_wo_load),
+                       INSTR_FLAGS.LD in ins.flags, ins.mnemonic, [operand_y(o, keys.of(o, p)) for p, o in enumerate(ops)]])
+        ims.append(im)
+        reqs.append("dgfull %s %s %s %s %s %s" % (esc(isa), esc("1" if fd else "0"), esc(im.stlf), esc(im.pidx), forms_enc,
+                                                 esc(dgenc.yenc2(ky))))
+    for im, rep in zip(ims, ctx.driver.ask(reqs)):
+        ctx.count("graph_kernels")
+        if rep in ("raise", "unsupported", "hidden-mem"):
+            ctx.count("graph_" + rep.replace("-", "_"))
+            if rep == "raise" and not im.raised:
+                if tally.breaks < 6:
+                    ctx.correspondence_break("graph-from-operands", dict(im.info(), model="a register-change query raises"))
+                tally.breaks += 1
+            continue
+        try:
+            d = dgenc.diff_edges(dgenc.parse_edges(rep), im.edges())
+        except Exception:  # noqa
+            d = "reply " + rep[:80]
+        if d and not im.raised:
+            if tally.breaks < 6:
+                ctx.correspondence_break("graph-from-operands", dict(im.info(), diff=d))
+            tally.breaks += 1
+        elif not d and im.edges():
+            ctx.count("graph_kernels_with_edges")
+
+
 def run(ctx, syn_forms=None, volume=1.0):
     """One call from harness/props/c03.py (and c06.py).  `syn_forms`: the synthetic ISA entries of this run."""
     prove(ctx)
@@ -444,6 +497,7 @@ def run(ctx, syn_forms=None, volume=1.0):
             else:
                 kernels.append((extra_lines(rng, isa), "targeted"))
         compare(ctx, isa, sem, parsers[isa], enc, kernels, tally)
+        compare_graph(ctx, isa, enc, [k for k in kernels if k[1] != "synthetic-isa"][: max(10, n // 10)], tally)
         # ---- the same database plus synthetic entries that carry the translated operations on arbitrary forms
         zz = zz_forms(rng, isa, sorted(opclass))
         path = os.path.join(ctx.env.work, "zzisa_%s.yml" % isa)
@@ -455,9 +509,10 @@ def run(ctx, syn_forms=None, volume=1.0):
         encz = tie_database(ctx, isa, path, semz, opclass)
         compare(ctx, isa, semz, parsers[isa], encz,
                 [(zz_kernel(rng, isa, zz, rng.randint(2, 6)), "synthetic-operations") for _ in range(max(20, n // 6))], tally)
-    ctx.cov["roles_correspondence"] = {k: v for k, v in ctx.counts.items() if k.startswith(("roles_", "reg_changes_", "isa_entries"))}
+    ctx.cov["roles_correspondence"] = {k: v for k, v in ctx.counts.items() if k.startswith(("roles_", "reg_changes_", "isa_entries", "graph_"))}
     ctx.log("roles: %d instructions compared (%d with src_dst, %d with hidden operands; register changes: %d known, %d raise, "
-            "%d post-indexed); %d ISA entries tied, %d disagreements"
+            "%d post-indexed); %d ISA entries tied; %d graphs rebuilt from the parsed operands (%d with edges); %d disagreements"
             % (ctx.counts.get("roles_instructions", 0), ctx.counts.get("roles_with_src_dst", 0), ctx.counts.get("roles_with_hidden", 0),
                ctx.counts.get("reg_changes_known", 0), ctx.counts.get("reg_changes_raise", 0),
-               ctx.counts.get("reg_changes_postindexed", 0), ctx.counts.get("isa_entries_compared", 0), tally.breaks))
+               ctx.counts.get("reg_changes_postindexed", 0), ctx.counts.get("isa_entries_compared", 0),
+               ctx.counts.get("graph_kernels", 0), ctx.counts.get("graph_kernels_with_edges", 0), tally.breaks))
